@@ -1340,3 +1340,94 @@ func ruleIntLiteralSigned(c *Ctx, r *Report) {
 	}
 	r.analysed(rule, fname(fn))
 }
+
+// ---------------------------------------------------------------------------
+// R-FLOAT-RESULT-FINITE (C07; added with fix F37): "float operations yield the IEEE-754 double result and
+// raise float_overflow … when that result is infinite". A pre-check by comparison rounds like the operation
+// it guards and lets operands just past the rounded bound through, so the guarantee needs a look at the
+// RESULT: in the evaluable functions every value that is produced by an operation able to overflow from
+// finite operands - float + - * /, math.Exp, Pow, Sinh, Cosh, Exp2 - and returned without an error lies
+// under the fact math.IsInf(value) == false.
+
+func ruleFloatResultFinite(c *Ctx, r *Report) {
+	const rule = "R-FLOAT-RESULT-FINITE"
+	desc := "a float produced by an operation that can overflow is returned only under math.IsInf(result) == false"
+	overflowing := map[string]bool{"Exp": true, "Pow": true, "Sinh": true, "Cosh": true, "Exp2": true, "Expm1": true, "Gamma": true}
+	n := 0
+	for _, fn := range c.LibFuncs() {
+		if funcPkg(fn) != c.Engine || fn.Parent() != nil {
+			continue
+		}
+		res := fn.Signature.Results()
+		if res.Len() != 2 || !isErrorType(res.At(1).Type()) {
+			continue
+		}
+		if !isEngNamed(res.At(0).Type(), "Float") && !isEngNamed(res.At(0).Type(), "Number") {
+			continue
+		}
+		seen := 0
+		eachInstr(fn, func(in ssa.Instruction) {
+			ret, ok := in.(*ssa.Return)
+			if !ok || len(ret.Results) != 2 {
+				return
+			}
+			if k, isConst := ret.Results[1].(*ssa.Const); !isConst || k.Value != nil {
+				return
+			}
+			// the producing operation
+			var produced ssa.Value
+			for _, l := range c.originSet(ret.Results[0]) {
+				v := l
+				for {
+					if cv, ok := v.(*ssa.Convert); ok {
+						v = cv.X
+						continue
+					}
+					if ct, ok := v.(*ssa.ChangeType); ok {
+						v = ct.X
+						continue
+					}
+					break
+				}
+				switch x := v.(type) {
+				case *ssa.BinOp:
+					if isFloatType(x.Type()) {
+						switch x.Op {
+						case token.ADD, token.SUB, token.MUL, token.QUO:
+							produced = l
+						}
+					}
+				case *ssa.Call:
+					if f := x.Call.StaticCallee(); f != nil && f.Pkg != nil && f.Pkg.Pkg.Path() == "math" && overflowing[f.Name()] {
+						produced = l
+					}
+				}
+			}
+			if produced == nil {
+				return
+			}
+			n++
+			seen++
+			key := fmt.Sprintf("%s/result#%d", fname(fn), seen)
+			finite := false
+			for f := range c.factsAt(in.Block()) {
+				call, ok := f.cond.(*ssa.Call)
+				if !ok || f.pol {
+					continue
+				}
+				if callee := call.Call.StaticCallee(); callee != nil && callee.Pkg != nil && callee.Pkg.Pkg.Path() == "math" && callee.Name() == "IsInf" {
+					finite = true
+				}
+			}
+			if finite {
+				r.ok(rule, key, c.at(in), desc, "returned under math.IsInf(result) == false", true)
+			} else {
+				r.bad(rule, fmt.Sprintf("%s/result", fname(fn)), c.at(in), desc, "the result "+valName(produced)+" is returned without a test for infinity: operands just past a rounded pre-check evaluate to +Inf without float_overflow")
+			}
+		})
+	}
+	if n == 0 {
+		r.bad(rule, "scan/float-results", "-", desc, "no float result of an overflowing operation found")
+	}
+	r.analysed(rule, fmt.Sprintf("%d returned results of operations that can overflow", n))
+}
